@@ -28,14 +28,42 @@ def run_fc(fc, args, cwd):
         return "timeout", "", ""
 
 
+def cyclic_def(r):
+    """a definition whose parameters are unified with types that contain them (no finite type): the
+    same variable at several depths of slices / pairs, possibly through a second parameter"""
+    def wrap(e, d):
+        for _ in range(d):
+            e = "[%s]" % e if r.random() < 0.7 else "(%s, 1)" % e
+        return e
+    names = ["x", "y"][:1 if r.random() < 0.7 else 2]
+    depths = r.sample(range(1, 5), r.randint(1, 3)) + ([0] if r.random() < 0.8 else [])
+    r.shuffle(depths)
+    items = [wrap(r.choice(names), d) for d in depths]
+    if len(items) < 2:
+        items.append(wrap(names[0], 2))
+    body = "[" + "; ".join(items) + "]"
+    if r.random() < 0.3:
+        body = "let m = %s\n  [m; [m]]" % body
+    return "let cyc%d %s =\n  %s\n" % (r.randint(0, 999), " ".join(names), body)
+
+
 def mutants(r, corpus, n):
     frag = [" ", "\n", "  ", "\t", "(", ")", "{", "}", "[", "]", "|", "->", "=", "let", "match", "with", "if", "then", "else", "fun", "type",
-            "of", "\"", "`", "$\"", "/*", "*/", "//", "_", "<", ">", ",", ";", ".", "|>", "+", "0", "x", "package_info", "and", "\\", "{x}", "é"]
+            "of", "\"", "`", "$\"", "/*", "*/", "//", "_", "<", ">", ",", ";", ".", "|>", "+", "0", "x", "package_info", "and", "\\", "{x}", "é",
+            "\r", "\r\n", " \r", "\x0c", "\x0b", "\x00", "\x7f", "\xc2\xa0", "#", "@", "~"]
     out = []
     for _ in range(n):
         src = r.choice(corpus)
         k = r.random()
-        if k < 0.25:                      # truncation
+        if k < 0.04:                      # the whole file saved with DOS line ends / a stray CR after a line
+            if r.random() < 0.5:
+                m = src.replace("\n", "\r\n")
+            else:
+                lines = src.split("\n")
+                i = r.randrange(len(lines))
+                lines[i] = lines[i] + "\r"
+                m = "\n".join(lines)
+        elif k < 0.25:                    # truncation
             m = src[:r.randint(0, len(src))]
         elif k < 0.45:                    # delete / duplicate / swap a token
             toks = re.findall(r"\s+|\w+|[^\w\s]", src)
@@ -64,8 +92,12 @@ def mutants(r, corpus, n):
             m = src + "\n" + r.choice([
                 "let selfapp x =\n  x x\n", "let omega f =\n  f f f\n", "let loop x =\n  loop x\n",
                 "let bad (a:int) =\n  a + \"s\"\n", "let y f =\n  (fun x -> f (x x)) (fun x -> f (x x))\n",
-                "let cyc x =\n  [x; [x]]\n", "let t x =\n  (x, x x)\n", "type R = {r: R}\n", "let deep () =\n  " + "(" * 200 + "1" + ")" * 200 + "\n"])
+                "let cyc x =\n  [x; [x]]\n", "let t x =\n  (x, x x)\n", "type R = {r: R}\n", "let deep () =\n  " + "(" * 200 + "1" + ")" * 200 + "\n",
+                cyclic_def(r), cyclic_def(r), cyclic_def(r)])
         out.append(m)
+    # a fixed share of cyclic definitions (found D22: the relations of the resolver never settled)
+    for _ in range(max(30, n // 60)):
+        out.append(r.choice(corpus)[:r.choice([0, 400, 2000])].rsplit("\nlet ", 1)[0] + "\n\n" + cyclic_def(r))
     return out
 
 
@@ -186,7 +218,7 @@ def run(ctx):
             # without a file or fails without diagnostic is a failing input
             ctx.direct.append({"kind": "driver behaviour differs from exit-0-iff-complete discipline", "args": i, "predicted": e, "observed": o})
     shutil.rmtree(wd, ignore_errors=True)
-    ctx.finish(rule="tokenizer: every byte value x 12 continuations, random fragment strings, corpus files, truncated/damaged corpus files through the real scanners vs the model; real binary (timeout %ds, 6 GB address-space limit) on mutants of the samples and compiler sources: truncation at random offsets, token deletion/duplication/swap, indentation damage, inserted fragments, unterminated comments/strings, comment at EOF, self-referential and ill-typed definitions, deep nesting; argument lists mixing good/bad/missing/unwritable (open fails)/full device (write fails)/.foi files vs the driver model; distinct = distinct mutants" % TIMEOUT)
+    ctx.finish(rule="tokenizer: every byte value x 12 continuations, random fragment strings, corpus files, truncated/damaged corpus files through the real scanners vs the model; real binary (timeout %ds, 6 GB address-space limit) on mutants of the samples and compiler sources: truncation at random offsets, token deletion/duplication/swap, indentation damage, inserted fragments, unterminated comments/strings, comment at EOF, self-referential, cyclic (a variable unified with types containing it at several depths) and ill-typed definitions, deep nesting, DOS line ends / stray CR and other control bytes; argument lists mixing good/bad/missing/unwritable (open fails)/full device (write fails)/.foi files vs the driver model; distinct = distinct mutants" % TIMEOUT)
 
 
 def replay(ctx, path):
